@@ -313,6 +313,26 @@ func (env *SpecEnv) loopVar(name string) SVal {
 	if env.block == nil {
 		specFail("@%s outside a loop clause", name)
 	}
+	if name == "mappos" {
+		// number of entries the (only) map iterator of the function has yielded
+		var found *ssa.Range
+		for _, b := range fr.fn.Blocks {
+			for _, ins := range b.Instrs {
+				if r, ok := ins.(*ssa.Range); ok {
+					if _, isMap := r.X.Type().Underlying().(*types.Map); isMap {
+						if found != nil {
+							specFail("@mappos: more than one map iterator in %s", fr.fn)
+						}
+						found = r
+					}
+				}
+			}
+		}
+		if found == nil {
+			specFail("@mappos: no map iterator in %s", fr.fn)
+		}
+		return sInt(env.vc().get(env.state(), fr.iterKey(found)))
+	}
 	for _, ins := range env.block.Instrs {
 		phi, ok := ins.(*ssa.Phi)
 		if !ok {
